@@ -349,6 +349,7 @@ def run_sim(cfg, max_days=None, fail_gd_on=None, keep=False, hook=None):
         nc = r[0]
         # ---- expected outputs
         exp = [eZ(nc.dap), eB(nc.crop_mature), eB(nc.harvest_flag)] + enc_state(nc)
+        nstate_toks = len(exp)
         fl = outputs.water_flux[tsc, :]; gr = outputs.crop_growth[tsc, :]; stg = outputs.water_storage[tsc, :]
         exp += [eZ(fl[0]), eZ(fl[1]), eZ(fl[2]), eF(fl[3]), ("N" if fl[4] != fl[4] else "S " + eF(fl[4]))] + [eF(x) for x in fl[5:]]
         exp += [eZ(gr[0]), eZ(gr[1]), eZ(gr[2])] + [eF(x) for x in gr[3:]]
@@ -360,6 +361,7 @@ def run_sim(cfg, max_days=None, fail_gd_on=None, keep=False, hook=None):
             exp += ["N"]
         if keep:
             d["clock0"] = clock0; d["weather"] = weather; d["pre"] = pre; d["exp_core"] = " ".join(exp).split(); d["res_keep"] = dict(d["res"])
+            d["exp_rows"] = " ".join(exp[nstate_toks:]).split()      # the three table rows and the summary row (or N)
         # the arguments each process received
         gs = "gd" in d["args"]
         for name, short, args, res in SPEC:
@@ -420,7 +422,13 @@ def run_sim(cfg, max_days=None, fail_gd_on=None, keep=False, hook=None):
         rec.uninstall()
         core.solution_single_time_step = _ORIG_STEP
         UT.reset_initial_conditions = _ORIG_RESET
-    return {"days": days, "resets": resets, "error": err, "malformed": malformed}
+    out = {"days": days, "resets": resets, "error": err, "malformed": malformed}
+    if keep:      # what the whole-run suite (runc) compares at the end: clock and state after the last update_time
+        ic = m._init_cond
+        out["n_steps"] = int(len(cs.time_span))
+        out["final"] = " ".join([eZ(cs.time_step_counter), eZ(cs.season_counter), eB(cs.model_is_finished),
+                                 eZ(ic.dap), eB(ic.crop_mature), eB(ic.harvest_flag)] + enc_state(ic)).split()
+    return out
 
 
 # ---------------------------------------------------------------------------------------------------------------
